@@ -108,6 +108,7 @@ def tlc_phase(ctx, flags):
         ("neg_obj", "RecvPack_neg_obj.cfg", "NoDanglingRef"),
         ("neg_atomic", "RecvPack_neg_atomic.cfg", "AtomicOK"),
         ("neg_local_obj", "RecvPack_neg_local_obj.cfg", "NoDanglingRef"),
+        ("neg_implied", "RecvPack_neg_implied.cfg", "ImpliedSuccess"),
         ("neg_local_race", "RecvPack_neg_local_race_q.cfg" if q else "RecvPack_neg_local_race.cfg", "AtomicOK"),
     ]
     if not q:
@@ -272,8 +273,11 @@ def tla_trace(tr, tid):
             ev.append({"p": e["p"], "op": "refop", "i": e["i"], "pre": e["pre"], "post": e["post"], "res": e["res"],
                        "refs": e["refs"] + pad})
         elif e["op"] == "done":
-            ev.append({"p": e["p"], "op": "done", "unp": e["unp"], "st": e["st"], "refs": e["refs"] + pad,
-                       "store": e["store"], "rest": e.get("rest", 0)})
+            d = {"p": e["p"], "op": "done", "unp": e["unp"], "st": e["st"], "refs": e["refs"] + pad,
+                 "store": e["store"], "rest": e.get("rest", 0)}
+            if "implied" in e:
+                d.update(implied=e["implied"], twinrefs=e["twinrefs"] + pad, twinstore=e["twinstore"])
+            ev.append(d)
     # the monitor looks at two capabilities only; dropping the others lets executions that differ
     # in framing alone share one TLC evaluation (their statuses were decoded by the real client)
     push = [{**d, "caps": [c for c in d["caps"] if c in ("report-status", "atomic")]} for d in tr["push"]]
@@ -408,6 +412,10 @@ def classify(tr, clause, a, b, l):
         scen = f"{path} partial failed={'+'.join(why)} race={race}"
         what = (f"atomic push applied only some of its updates: {[(x['c'], 'changed' if x['changed'] else 'not applied') for x in infos]} "
                 f"told={done['st'] if done else None}; {ctxt}")
+    elif clause == "ReportIndependent":
+        scen = f"{path} final repository differs from the run with report-status told={unp}"
+        what = (f"the push {d['cmds']} left refs={done['refs']} store={done['store']} without report-status but refs={done.get('twinrefs')} "
+                f"store={done.get('twinstore')} when the same push asked for report-status (told there: {done.get('implied')}); {ctxt}")
     elif clause == "NoDanglingRef":
         x = cmdinfo(i) if i else dict(kind="?", old="?", new="?", exe=0, changed=0, c=None, pre=None, post=None)
         scen = f"{path} new={x['new']} old={x['old']} exe={x['exe']} changed={x['changed']} unpack={srvunp}"
@@ -416,9 +424,44 @@ def classify(tr, clause, a, b, l):
     else:
         x = cmdinfo(i) if i else dict(kind="?", old="?", new="?", exe=0, changed=0, reported="?", hook="?", c=None, pre=None, post=None)
         scen = f"{path} old={x['old']} exe={x['exe']} changed={x['changed']} reported={x['reported']} unpack={unp}"
+        if clause == "ImpliedSuccess":
+            scen += " with-report-status=ok"
         what = (f"{clause}: command {x['c']} ({x['kind']}, new value {x['new']}) of push {p}: ref was {x['pre']} before and {x['post']} after "
                 f"the push's operation, client told {x['reported']!r} (unpack {unp}, atomic={atomic}, hook={x['hook']}); {ctxt}")
     return f"{site}|{clause}|{scen}", what
+
+
+# --------------------------------------------------------------------------- pairs of runs with / without report-status
+def pair_quiet(ctx, res, opts):
+    """A wire push without report-status is told nothing.  Give its `done` event what the same
+    push, from the same server state, was told and left behind when it was run with report-status
+    added (a second real execution): the monitor's ImpliedSuccess / ReportIndependent clauses
+    compare the two."""
+    by_key = {k: tr for k, tr in res}
+    quiet, missing = [], {}
+    for k, tr in res:
+        d = tr["push"][0]
+        if len(tr["push"]) == 1 and d["kind"] == "wire" and "report-status" not in d["caps"]:
+            twin = {"refs0": tr["refs0"], "store0": tr["store0"],
+                    "push": [{**d, "caps": sorted(set(d["caps"]) | {"report-status"})}]}
+            tk = case_key(twin)
+            quiet.append((tr, tk))
+            if tk not in by_key:
+                missing[tk] = twin
+    if missing:
+        for tk, ttr in pool_run(ctx, "seq", [(tk, missing[tk], opts) for tk in sorted(missing)], chunk=50):
+            by_key[tk] = ttr
+    n = 0
+    for tr, tk in quiet:
+        t = by_key[tk]
+        td = [e for e in t["ev"] if e["op"] == "done"][-1]
+        for e in tr["ev"]:
+            if e["op"] == "done":
+                e["implied"] = td["st"] if td["unp"] == "ok" else ["-"] * len(td["st"])
+                e["twinrefs"], e["twinstore"] = td["refs"], td["store"]
+                n += 1
+    ctx.cov["pairs_with_without_report_status"] = ctx.cov.get("pairs_with_without_report_status", 0) + n
+    return res
 
 
 # --------------------------------------------------------------------------- R: behaviours of the spec on the real code
@@ -438,6 +481,8 @@ def replay_space(ctx, judge, label, behs, *, race=False, opts=None):
         model.setdefault(k, set()).add(L.project_model(b))
     items = [(k, cases[k], opts) for k in sorted(cases)]
     res = pool_run(ctx, "race" if race else "seq", items, chunk=6 if race else 50)
+    if not race:
+        res = pair_quiet(ctx, res, opts)
     real = {}
     nexec = 0
     for k, tr in res:
@@ -545,6 +590,8 @@ def replay(ctx, path):
         tr = c06_git.rerun(ctx, tpl, tr0)
     else:
         tr = L.run_case(tpl, case, tr0.get("choices", ()), stateless=tr0.get("stateless", False))
+        if len(case["push"]) == 1:
+            pair_quiet(ctx, [(case_key(case), tr)], {"stateless": tr0.get("stateless", False)})
     print("re-executed on the current tree:")
     for e in tr["ev"]:
         print("   ", json.dumps(e))
